@@ -112,6 +112,39 @@ Theorem C03_proto_response_id_variant_refuted :
 Proof. exact proto_respid_delivers_foreign. Qed.
 Print Assumptions C03_proto_response_id_variant_refuted.
 
+(* One name per chunk.  A leaf store looks for a chunk under the name of the format it is
+   configured for and nowhere else: if that object does not exist the chunk is missing, whatever
+   else the world holds -- in particular an object of the OTHER format under the same id, which
+   is a different slot. *)
+Theorem C03_leaf_own_name_only :
+  forall (H : bytes -> id) (zcomp : bytes -> bytes) (zdecomp : bytes -> option bytes)
+         (k : nat) (o : lopts) (i : id) (w : world),
+  (forall h op, w_fault w h op = NoFault) -> w_obj w k i = None ->
+  fst (get H zcomp zdecomp (W (WLeaf k o)) i w) = Err EMissing.
+Proof. exact leaf_own_name_only. Qed.
+Print Assumptions C03_leaf_own_name_only.
+
+(* A store that DID fall back to the other format's name (slot k') would be fine as long as
+   what it finds goes through the verifying constructor ... *)
+Theorem C03_fallback_checked_sound :
+  forall (H : bytes -> id) (zdecomp : bytes -> option bytes) (k k' : nat) (o : lopts) (i : id) (w : world),
+  lo_skip o = false ->
+  match fst (leaf_get_fallback H zdecomp true k k' o i w) with
+  | Ok c => verified H zdecomp i c
+  | Err _ => True
+  end.
+Proof. exact fallback_checked_sound. Qed.
+Print Assumptions C03_fallback_checked_sound.
+
+(* ... and is refuted if it hands it to NewChunk (the constructor for trusted data): with the
+   own object gone it delivers, without error, whatever bytes lie under the other name. *)
+Theorem C03_fallback_unchecked_refuted :
+  forall (H : bytes -> id) (zdecomp : bytes -> option bytes) (k k' : nat) (o : lopts) (i : id) (w : world) (b : bytes),
+  (forall h op, w_fault w h op = NoFault) -> w_obj w k i = None -> w_obj w k' i = Some b -> nonempty b = true ->
+  exists c, fst (leaf_get_fallback H zdecomp false k k' o i w) = Ok c /\ data_of zdecomp c = Some b.
+Proof. exact fallback_unchecked_delivers_anything. Qed.
+Print Assumptions C03_fallback_unchecked_refuted.
+
 (* A sequence of requests through the same stack (caches fill up, failover groups move on). *)
 Theorem C03_requests_sound :
   forall (H : bytes -> id) (zcomp : bytes -> bytes) (zdecomp : bytes -> option bytes)
@@ -293,6 +326,15 @@ Example C03_ex_response_id :
         (mkWorld (fun _ _ => None) (fun _ => 0) [] (fun _ o => match o with OpNet _ _ => FRespond 7%N [7; 1; 2; 4]%N | _ => NoFault end)))
      = Err EInvalid
   /\ ex_result (get ex_H ex_zc ex_zd (Proto 0 (Foreign 0)) 7%N w) = Ok (Some [1; 2; 4]%N).
+Proof. vm_compute. repeat split; reflexivity. Qed.
+(* a compressed store whose object for chunk 6 is gone while a bare-id file (slot 1) holds
+   [1;2;4]: the code says missing; the unchecked fallback delivers [1;2;4] for request 6 *)
+Example C03_ex_other_format :
+  let w := ex_world (fun k _ => match k with 1 => Some [1; 2; 4]%N | _ => None end) in
+  ex_result (get ex_H ex_zc ex_zd (ex_leaf 0 false) 6%N w) = Err EMissing
+  /\ ex_result (leaf_get_fallback ex_H ex_zd false 0 1 (ex_lo false) 6%N w) = Ok (Some [1; 2; 4]%N)
+  /\ ex_result (leaf_get_fallback ex_H ex_zd true 0 1 (ex_lo false) 6%N w) = Err EInvalid
+  /\ ex_result (leaf_get_fallback ex_H ex_zd true 0 1 (ex_lo false) 7%N w) = Ok (Some [1; 2; 4]%N).
 Proof. vm_compute. repeat split; reflexivity. Qed.
 (* the premise of C03_pre898d634_copy_refuted is met by a verifying stack: RemoteSSH in front of
    `desync pull` over a store with a flipped object; index [(6, 3)] describing [1;2;3] *)
